@@ -384,6 +384,12 @@ func C17(c *Ctx) *kf.Report {
 	nScript := c17Scripts(rep, scriptCases)
 	rep.Coverage["traces_validated_against_impl"] = checked + nScript
 	rep.Coverage["scenarios"] = checked
+	rep.Coverage["evaluations"] = checked + nScript
+	rep.Coverage["samples"] = []any{
+		map[string]any{"path": "func", "sig": []string{"string", "int8", "float32"}, "vary": 2, "value": "i8.max+1 (128)", "expected": "catchable error, Go function not entered"},
+		map[string]any{"path": "method", "ret": "uint32", "value": "u32.max (4294967295)", "expected": "script receives int 4294967295"},
+		map[string]any{"path": "generic", "sig": []string{"uint16"}, "value": "-1", "expected": "error"},
+	}
 	rep.Coverage["script_level_calls"] = nScript
 	rep.Coverage["distinct_nontrivial"] = errorsExpected
 	rep.Coverage["skipped_generic_return"] = skipped
